@@ -277,7 +277,7 @@ impl<'a> ShimDrop for Result<MutexGuard<'a, Writer>, Error> {
 }
 #[verifier::external_body]
 pub fn drop<T: ShimDrop>(t: T, Tracked(w): Tracked<&mut World>)
-    requires t.drop_pre(*old(w)), // [C06:unlock-after-publish] [C02:unlock-after-apply] [C13:early-exit-only-when-poisoned]
+    requires t.drop_pre(*old(w)), // [C06:unlock-after-publish] [C02:unlock-after-apply] [C13:early-exit-only-when-poisoned] [C05:no-view-sees-a-half-applied-batch]
     ensures t.drop_post(*old(w), *final(w)),
 { unimplemented!() }
 
